@@ -21,6 +21,8 @@ def run(pid, tier, seed):
       ident = {"clause": cl, "kind": m["kind"], "layer": ev["layer"],
                "input_range_inside_unit_interval": bool(ev.get("range")) and max(abs(ev["range"][0]), abs(ev["range"][1])) < 1, "weights": m["wq"].split("_")[0].rstrip("0123456789iu"),
                "bias": bool(ev["hasb"]) if "hasb" in ev else m["bq"] != "none"}     # the bias of THIS layer (l2 has its own)
+      if ev.get("range"):
+        ident["input_range_entirely_negative"] = ev["range"][1] < 0
       if "iq" in m:
         ident["input_quantizer"] = m["iq"].rstrip("0123456789")
       # two structural facts of the failing case that the recorded findings are keyed on
